@@ -322,7 +322,8 @@ func (s *AdminOp) updateValidators(validators *agtypes.ValidatorSet, changedVali
 		case agtypes.ValidatorCmdRemoveNode:
 			_, removed := validators.Remove(address)
 			if !removed {
-				return fmt.Errorf("Failed to remove validator %X", address)
+				// already removed by an earlier request of this block: nothing left to do
+				log.Warn(fmt.Sprintf("validator %X is not in the set, remove ignored", address))
 			}
 		default:
 			log.Warn("unsupported admin operation:" + string(vAttr.Cmd))
